@@ -11,6 +11,9 @@ verdict is reported as one case of the parent; a violation quotes the child's fi
 The same child also runs with `-W error` - the caller's warnings filter turns every warning into an exception, as `python -W error`,
 PYTHONWARNINGS=error and pytest's `filterwarnings = error` do: a DeprecationWarning the library trips over in its own code, or a FutureWarning from a
 re-spelled regular expression, is invisible under the default filter and makes a valid call raise under this one.
+
+And it runs with another string-hash seed (PYTHONHASHSEED=1; the parent runs with 0, the process-with-a-past child with 2): a result that
+follows the iteration order of a set of strings differs between interpreter runs; three fixed seeds make three different orders.
 """
 import os
 import subprocess
@@ -26,7 +29,7 @@ def _check(prop):
     d = os.path.join(scratch_dir(), "optimised-" + prop)
     os.makedirs(d, exist_ok=True)
     env = dict(os.environ, PRAATIO_SRC=SRC, VERIF_EVIDENCE_DIR=d, VERIF_REPLAY_DIR=d, VERIF_CHILD="1", VERIF_INPUT_STRIDE="23", VERIF_INPUT_DENSE="400",
-               VERIF_BFS_DEPTH_CAP="1", PYTHONDONTWRITEBYTECODE="1", PYTHONHASHSEED="0")
+               VERIF_BFS_DEPTH_CAP="1", PYTHONDONTWRITEBYTECODE="1", PYTHONHASHSEED="1")
     env.pop("PYTHONOPTIMIZE", None)
     env.pop("PYTHONWARNINGS", None)
     p = subprocess.run([sys.executable, "-O", "-W", "error", "-B", "-m", "mc.run", prop, "quick"], cwd=ROOT, env=env, stdout=subprocess.PIPE, stderr=subprocess.PIPE,
